@@ -33,9 +33,12 @@ func handle(run *hx.Run, model *hx.Model, name string, r *psx.Runner) {
 		return rr != nil && rr.FailWhat == what
 	})
 	psx.GateTimeout = 10 * time.Second
+	// the shrunk script is reported first (./check saves the first finding of a kind as the replay)
+	var shrunk *psx.Runner
 	if len(small) < len(r.Script) {
-		psx.Replay(run, model, name+"/shrunk", small)
+		shrunk = psx.Replay(run, model, name+"/shrunk", small)
 	}
+	r.ReportHeld(shrunk)
 }
 
 func TestC03(t *testing.T) {
@@ -62,6 +65,10 @@ func TestC03(t *testing.T) {
 			for i := range r.Impl {
 				t.Logf("impl:  %s", r.Impl[i])
 				t.Logf("model: %s", r.Mdl[i])
+			}
+			if r.Failed && r.FailKind != "oracle" && model != nil {
+				// the run stopped where model and code part ways: let the oracle alone judge the same script
+				psx.Replay(run, nil, name+"/oracle-only", script)
 			}
 		}
 		return
